@@ -13,8 +13,11 @@ RULE = (
     "assignment, flush, commit, rollback, delete and an external DELETE of a row (another actor), on 1-3 generated "
     "objects of a one-column mapped class plus whatever the loads create (primary keys from {1,1,2,3}, rows {1,2,3} "
     "pre-inserted at random, expire_on_commit on/off), driven against a real Session on in-memory SQLite: all 400 "
-    "ordered pairs of 20 operation variants inside a fixed load/observe frame, the defect histories, and random "
-    "histories of length <= 12 (three weightings); thorough: all 8000 triples and 20000 random histories.  Before every "
+    "ordered pairs of 20 operation variants inside a fixed load/observe frame, 121 pairs in the same frame under an "
+    "identity token and 121 after a flushed primary-key switch, the defect histories, and random histories of length "
+    "<= 12 (three weightings); oracle-only families (not followed by the Coq model): a class with a deferred() column, "
+    "SAVEPOINT histories (begin_nested / release / rollback to savepoint) and an eager_defaults mapping; thorough: all "
+    "8000 triples and 20000 random histories.  Before every "
     "operation the harness records the model's environment (visible rows; per object expired / pk-expired / pk-loaded "
     "/ modified); after it: error class, identities (first-occurrence indices) of all returned objects, whether a get "
     "emitted no SQL (before_cursor_execute count), and per object its identity key and membership in session.new / "
@@ -30,8 +33,9 @@ TRUSTED = [
     "DBAPI connection shared with the Session (SingletonThreadPool); SQL counted by before_cursor_execute",
 ]
 ASSUMPTIONS = [
-    "one Session, no SAVEPOINTs, no relationships (relationship loads are not covered), objects kept alive by the "
-    "caller, single-column primary key set by the application, SQLite",
+    "one Session, no relationships (relationship loads are not covered), objects kept alive by the caller, "
+    "single-column primary key set by the application, SQLite; SAVEPOINTs, deferred columns and eager_defaults are "
+    "exercised on the implementation and judged by the oracle only (no model, no theorem)",
     "histories are cut when an identity-less object has lost its pk value, when two states about to be flushed would "
     "get the same identity or share their old primary key (set-iteration-order dependent outcomes), and after a "
     "rollback() that raised",
@@ -128,7 +132,7 @@ def gen_cases(rng, tier):
         # after a flushed primary-key switch 1 -> 3
         cases.append({"in": [k & 1, [1], [1, 2], [[0, 0, 0], [6, 1, 3], [7, 0, 0]] + [list(v) for v in seq]
                              + [[1, 3, 0], [1, 1, 0], [0, 0, 0]]], "kind": "pk-switch"})
-    for k, seq in enumerate(itertools.product(VARIANTS, repeat=2)):
+    for k, seq in enumerate(itertools.product(VARIANTS if tier == "thorough" else sub, repeat=2)):
         # a class with a deferred() column (loads leave it in expired_attributes): oracle only
         cases.append({"in": [1, [1], [1, 2], [[0, 0, 0]] + [list(v) for v in seq] + [[0, 0, 0], [1, 1, 0], [1, 2, 0]]],
                       "kind": "deferred", "deferred": 1, "model": False})
@@ -143,7 +147,7 @@ def gen_cases(rng, tier):
         # eager_defaults mapping, primary-key switch: oracle only
         cases.append({"in": [0, [1], [2], [[5, 0, 0], [8, 0, 0], [6, 0, 3], [7, 0, 0], list(v), [1, 3, 0], [0, 0, 0]]],
                       "kind": "eager", "eager": 1, "model": False})
-    for _ in range(20000 if tier == "thorough" else 800):
+    for _ in range(20000 if tier == "thorough" else 600):
         cases.append(_random_case(rng))
     return cases
 
